@@ -89,7 +89,7 @@ fn first_index<T>(v: &[T], f: impl Fn(&T) -> bool) -> Option<usize> {
 /// (state leaking between simulations is C04's / C20's statement): such runs are not judged by the other oracles
 pub fn foreign_records(prog: &NetProgram, res: &NetResult) -> bool {
     let n = normalise(prog).modules.len();
-    res.trace.iter().any(|r| r.m as usize >= n)
+    res.foreign || res.trace.iter().any(|r| r.m as usize >= n)
 }
 
 // ---------------------------------------------------------------- C08
@@ -994,6 +994,11 @@ pub fn check_c20(prog: &NetProgram, res: &NetResult, stop: &str, info: &mut RunI
         info.probe("ended_by_panic_unwinding_out_of_run");
     } else if let Some(e) = &res.escaped_panic {
         info.violate(Violation::new("C20", "panic", format!("building, running or dropping the model panicked ({stop}): {e}")));
+        return false;
+    }
+    if res.foreign {
+        info.violate(Violation::new("C20", "earlier-simulation-still-acting", format!(
+            "user code (module or element) of an earlier, dropped simulation of this process ran inside this simulation ({stop})")));
         return false;
     }
     let kind = |uid: u32| match uid {
